@@ -1307,6 +1307,7 @@ def check_C20(ctx):
     diff_check(ctx, "fmt", 3000, 200000, {"Base.v", "F64.v", "Percent.v", "SizeFmt.v", "SizeFmtProofs.v", "Props/C20.v"},
                monitor=c20_monitor, classify=lambda case: case[0].split()[0])
     dec_check(ctx, "V")
+    opt_check(ctx, {"adjust"})   # DecoratorAverageAdjust reaches wrapped average decorators
     # every sample reaches the moving-average decorator however deeply it is wrapped: the bar family's
     # recorder sits behind 0-3 wrappers; only the samples are compared here
     def samples_only(lines):
